@@ -69,7 +69,7 @@ def step_cfg(beh):
 def build_pipeline(behs):
     """embeds one or two varied steps in a minimal legal pipeline; returns (cfg, {step name: behaviour}, multiband)"""
     kinds, names_of = [], {}
-    multiband = any(b["multiband"] for b in behs)
+    multiband = max(b["multiband"] for b in behs)
     kinds_needed = [b["kind"] for b in behs]
     seq = ["matching_cost"]
     if "aggregation" in kinds_needed:
@@ -90,7 +90,7 @@ def build_pipeline(behs):
         else:
             c = copy.deepcopy(build.DEFAULT_STEP_CFG[k])
             if k == "matching_cost" and multiband:
-                c["band"] = "r"
+                c["band"] = "g"
             pipe[k] = c
     return {"pipeline": pipe}, varied, multiband
 
@@ -114,8 +114,9 @@ def run(tier):
     if len(behs) < 1000:
         raise MachineryFailure(f"only {len(behs)} behaviours were generated by TLC")
     chk.extra["behaviours_generated_by_tlc"] = len(behs)
-    metas = {False: (build.make_metadata(8, 10, disp=(-2, 2)), build.make_metadata(8, 10, disp=None)),
-             True: (build.make_metadata(8, 10, bands=["r", "g"], disp=(-2, 2)), build.make_metadata(8, 10, bands=["r", "g"], disp=None))}
+    metas = {0: (build.make_metadata(8, 10, disp=(-2, 2)), build.make_metadata(8, 10, disp=None)),
+             1: (build.make_metadata(8, 10, bands=["r", "g"], disp=(-2, 2)), build.make_metadata(8, 10, bands=["r", "g"], disp=None)),
+             2: (build.make_metadata(8, 10, bands=["r", "g"], disp=(-2, 2)), build.make_metadata(8, 10, bands=["g", "b"], disp=None))}
 
     def replay(group, label):
         cfg, varied, multiband = build_pipeline(group)
@@ -181,12 +182,12 @@ def run(tier):
         chk.count(("pair", a["kind"], a["method"], str(a["cfg"]), b["kind"], b["method"], str(b["cfg"])))
         replay([a, b], f"pair#{j}")
     # histories: the matching-cost classes share a class-level schema dictionary: check A then B must equal check B alone
-    mcb = [b for b in behs if b["kind"] == "matching_cost" and not b["multiband"]]
+    mcb = [b for b in behs if b["kind"] == "matching_cost" and b["multiband"] == 0]
     for j in range(60 if tier == "quick" else 600):
         a, b = mcb[rng.randint(len(mcb))], mcb[rng.randint(len(mcb))]
         cfg_a, _, _ = build_pipeline([a])
         cfg_b, _, _ = build_pipeline([b])
-        mL, mR = metas[False]
+        mL, mR = metas[0]
 
         def outcome(cfg):
             try:
